@@ -297,7 +297,14 @@ func runC04(s *kernel.Sim) {
 	// instead of having a g1 of its own
 	if !refShape && nFlows == 2 && flows[0].nGen >= 1 && flows[1].nGen >= 1 && tp.Chance(1, 3) {
 		f0 := flows[0]
-		f0.skip = map[string]bool{"g1": true}
+		if tp.Chance(1, 2) {
+			f0.skip = map[string]bool{"g1": true}
+		} else {
+			// f0 still declares a g1 of its own, configured differently, and connects
+			// nothing to it: the node "f1.g1" is f1's processor all the same
+			f0.status["g1"] = flows[1].status["g1"] + 100
+			s.Knobs["cross_flow_processor_shadows_a_local_one"] = true
+		}
 		for i := range f0.req {
 			if f0.req[i].to == "g1" {
 				f0.req[i].to = "f1.g1"
